@@ -17,7 +17,7 @@ tail -2 "$W/demo.out" > "$W/demo_mut_tail.txt"
 PYTHONPATH="$W/wt/src" timeout 900 /venv/bin/python -m pytest -q -p no:cacheprovider -x tests >"$W/suite.out" 2>&1; SUITE=$?
 echo "$ID-$K: demo clean=$CLEAN mutant=$MUT suite=$SUITE ($(tail -1 "$W/suite.out"))"
 if [ "$CLEAN" = 0 ] && [ "$MUT" != 0 ] && [ "$SUITE" = 0 ]; then
-  D=/verif/seeded/$ID-$K
+  D=/verif/seeded/$ID-${SEED_DEST_K:-$K}
   mkdir -p "$D"
   cp "$SRC/patch$K.diff" "$D/patch.diff"; cp "$SRC/demo$K.py" "$D/demo.py"
   /venv/bin/python - "$SRC/meta$K.json" "$D/meta.json" "$(cat "$W/demo_mut_tail.txt")" "$(tail -1 "$W/suite.out")" <<'PY'
